@@ -20,6 +20,11 @@ def commit_history(rng, n, heavy_delete=False, lazy=True):
             g.ops.append(["update", b, {"name": "n" + str(rng.randint(0, 9))}])
         elif r < 0.05:
             g.ops.append(["read", rng.choice(g.buckets)])
+        elif r < 0.06:
+            # operations that are rejected: missing bucket, nothing to update
+            g.ops.append(rng.choice([["delbucket", "no-such-bucket"], ["update", "no-such-bucket", {"name": "x"}],
+                                     ["update", rng.choice(g.buckets), {}], ["create", rng.choice(g.buckets), storegen.mk_meta(rng, "x")],
+                                     ["insert", "no-such-bucket", storegen.rand_ev(rng)]]))
         elif r < 0.07:
             b = rng.choice(g.buckets)
             g.ops.append(["delbucket", b])
@@ -227,6 +232,8 @@ class C06(Prop):
                     match = split[-1]
                     continue
                 match = cands[-1]
+                if s["out"][0] == "err" and owns[j] != owns[j - 1]:
+                    return f"{where}: rejected with {s['out']} but the connection's view of the store changed"
                 if op[0] in ("create", "update", "delbucket") and s["out"][0] == "ok" and match != j:
                     return f"{where}: bucket operation returned but is not durable"
                 if not lazy and match != j:
